@@ -817,6 +817,7 @@ def check(tier: str) -> int:
     rep.assumptions = core.TRUSTED_BASE_COMMON + [
         "model prims/EventCond.v hand-written from _asyncio.py:1853-1875 (Event), CPython 3.12.1 asyncio/locks.py:155-215, _core/_synchronization.py:276-385 (Condition) and embedding prims/Lock.v",
         "cancellation: native Task.cancel() on blocked tasks (both while the awaited future is pending and after it was resolved) and AnyIO CancelScope.cancel() of a scope wrapped around the blocking call",
+        "input domain: the Condition's Lock is private to it (every acquire/release goes through the Condition); a Lock shared with other Conditions or released directly is outside the model (observation O2: the holder check uses a per-condition record, not the lock's owner)",
         "documented scope: a NATIVE Task.cancel() landing inside Condition.wait()'s shielded re-acquire makes wait() raise without the lock and drops the notification; the C11 theorems carry the hypothesis `clean` (no such op) and the monitors exempt exactly these histories (AnyIO cancellation cannot do this: shield)",
     ]
     t_start = time.time()
@@ -833,8 +834,8 @@ def check(tier: str) -> int:
         if getattr(r, "invalid", False):
             rep.notes.append(f"corpus case {r.corpus_name} is no longer executable as recorded")
     quick = tier == "quick"
-    n_cond = 900 if quick else 14000
-    n_event = 250 if quick else 3000
+    n_cond = 900 if quick else 24000
+    n_event = 250 if quick else 5000
     for _ in range(n_cond):
         runs.append(random_cond_case(rng, rng.choice([8, 12, 18, 26, 40, 60])))
     for _ in range(n_event):
